@@ -364,7 +364,7 @@ Lemma main_loop_locations d limit st0 : forall args items st, input_opts st = in
 Proof.
   induction args as [|a args IH]; intros items st Ho H; inversion H as [|a' it args' items' [Hd Hp] Hrest]; subst.
   - exists st. cbn [main_loop fold_left Datatypes.length]. split; [reflexivity|]. split; [reflexivity|]. split; [cbn; lia|exact Ho].
-  - cbn [main_loop]. unfold main_step. rewrite Hd. rewrite (process_arg_d_opts d limit st st0 a Ho), Hp.
+  - cbn [main_loop]. unfold main_step, loc_step. rewrite Hd. rewrite (process_arg_d_opts d limit st st0 a Ho), Hp.
     cbn [bind]. destruct it as [m x]. cbn [fst snd].
     destruct (IH items' (set_sets st (apply_mode2 m (s_sets st) x) (N.succ (s_nloc st)))) as [st' [E [Hs [Hn Ho']]]];
       [exact Ho|exact Hrest|].
@@ -695,3 +695,78 @@ Proof.
   destruct (List.length t) as [|k] eqn:E; [lia|].
   rewrite removelast_firstn_len, E. cbn [pred]. apply content_app0. now apply Forall_firstn_.
 Qed.
+
+(* ------------------------------------------------------------------ *)
+(* stdin mode: every line is evaluated from zeroed sets, whatever the earlier lines were *)
+Section Stdin.
+  Variable d : dump.
+  Variable limit : option Z.
+
+  Lemma loc_step_inv st t st' k : loc_step d limit st t = Ok (Continue st' k) ->
+    k = 0%nat /\ zero_sets st' = zero_sets st.
+  Proof.
+    unfold loc_step. destruct (process_arg_d d limit st t) as [[m r]|]; [|discriminate]. cbn [bind].
+    destruct r; try discriminate; intros [= <- <-]; split; reflexivity.
+  Qed.
+
+  Lemma line_fold_zero : forall toks st st', line_fold d limit st toks = Ok (inl st') -> zero_sets st' = zero_sets st.
+  Proof.
+    induction toks as [|t tl IH]; intros st st' H; cbn [line_fold] in H.
+    - now injection H as <-.
+    - destruct (loc_step d limit st t) as [[st1 k|o]|] eqn:E; cbn [bind] in H; try discriminate.
+      apply loc_step_inv in E. destruct E as [_ E]. rewrite <- E. now apply IH.
+  Qed.
+
+  Definition not_exit (o : outcome) : Prop := match o with Exit _ _ => False | _ => True end.
+  Lemma loc_step_stop st t o : loc_step d limit st t = Ok (Stop o) -> not_exit o.
+  Proof.
+    unfold loc_step. destruct (process_arg_d d limit st t) as [[m r]|]; [|discriminate]. cbn [bind].
+    destruct r; try discriminate; intros [= <-]; exact I.
+  Qed.
+  Lemma line_fold_stop : forall toks st o, line_fold d limit st toks = Ok (inr o) -> not_exit o.
+  Proof.
+    induction toks as [|t tl IH]; intros st o H; cbn [line_fold] in H; [discriminate|].
+    destruct (loc_step d limit st t) as [[st1 k|o1]|] eqn:E; cbn [bind] in H; try discriminate.
+    - now apply IH in H.
+    - injection H as <-. now apply loc_step_stop in E.
+  Qed.
+
+  Definition line_out (z : cstate) nlv ilv hlv (toks : list (list N)) : res outcome :=
+    let* r := line_fold d limit z toks in
+    match r with inr o => Ok o | inl st' => Ok (calc_output d st' nlv ilv hlv) end.
+
+  (* stdout of a sequence of independent runs: concatenation, stopping at the first abnormal outcome *)
+  Fixpoint seq_out (outs : list (res outcome)) : res outcome :=
+    match outs with
+    | [] => Ok (Exit 0 [])
+    | o :: rest =>
+      let* x := o in
+      match x with
+      | Exit _ txt => let* y := seq_out rest in
+                      match y with Exit rc t2 => Ok (Exit rc (txt ++ t2)) | y' => Ok y' end
+      | x' => Ok x'
+      end
+    end.
+
+  Lemma stdin_loop_stateless nlv ilv hlv : forall lines st,
+    stdin_loop d limit st lines nlv ilv hlv = seq_out (map (line_out (zero_sets st) nlv ilv hlv) lines).
+  Proof.
+    induction lines as [|toks rest IH]; intros st; [reflexivity|].
+    unfold stdin_loop in *. cbn [stdin_loop_gen map seq_out]. unfold line_out at 1.
+    change (zero_sets_gen true st) with (zero_sets st).
+    destruct (line_fold d limit (zero_sets st) toks) as [[st'|o]|] eqn:E; cbn [bind]; [| |reflexivity].
+    2: { apply line_fold_stop in E. destruct o; [contradiction|reflexivity..]. }
+    destruct (calc_output d st' nlv ilv hlv); try reflexivity.
+    rewrite IH. apply line_fold_zero in E. rewrite E. reflexivity.
+  Qed.
+
+  (* a line whose tokens are not options gives what the same tokens give on the command line *)
+  Lemma line_fold_eq_main_loop : forall toks st,
+    Forall (fun t => is_dash (content t) = false) toks -> main_loop d limit st toks = line_fold d limit st toks.
+  Proof.
+    induction toks as [|t tl IH]; intros st H; [reflexivity|]. inversion H as [|t' tl' Ht Htl]; subst.
+    cbn [main_loop line_fold]. unfold main_step. rewrite Ht.
+    destruct (loc_step d limit st t) as [[st1 k|o]|] eqn:E; cbn [bind]; try reflexivity.
+    destruct (loc_step_inv _ _ _ _ E) as [-> _]. now apply IH.
+  Qed.
+End Stdin.
